@@ -25,7 +25,7 @@ RULE = ("programs from the typed generator with the 'blockwise' / 'default' / 's
 ASSUMPTIONS = ["rows inside a partition produced after a disk shuffle are unordered"]
 CONFIG = {
     "quick": {"budget_s": 45, "programs": 1400, "case_timeout_s": 60},
-    "thorough": {"budget_s": 480, "programs": 25000, "case_timeout_s": 120},
+    "thorough": {"budget_s": 480, "programs": 8000, "case_timeout_s": 120},
 }
 
 
